@@ -83,12 +83,14 @@ ASSUMPTIONS = [
     'or a DB that names only localhost',
 ]
 MIN = {
-    'trees': 1200, 'whole_clean': 200, 'targeted_clean': 600,
-    'deletion_events': 8000, 'selected_paths_checked': 3000,
-    'trees_with_nonstd_outward_link': 700, 'trees_with_std_symlink_dir': 600,
-    'items_through_nonstd_link': 150, 'items_recursive': 200,
-    'rejected_escaping_items': 100, 'std_targets_deleted': 300,
-    'survivors_checked': 20000,
+    'trees': 3000, 'whole_clean': 500, 'targeted_clean': 2000,
+    'deletion_events': 15000, 'selected_paths_checked': 10000,
+    'trees_with_nonstd_outward_link': 1500,
+    'trees_with_std_symlink_dir': 2000,
+    'items_through_nonstd_link': 200, 'items_recursive': 400,
+    'rejected_escaping_items': 400, 'refused_nonconforming_std_link': 200,
+    'std_targets_deleted': 700, 'survivors_checked': 100000,
+    'clean_via_runN': 50,
 }
 CASE_TIMEOUT = 60
 NCASES = {'quick': 4000, 'thorough': 120000}
@@ -774,7 +776,6 @@ def run_case(ctx, i, rng):
     model_rejects = any(s in ('absolute', 'escapes') for s, _, _ in norm)
     ok_parts = [(c, d) for s, c, d in norm if s == 'ok']
     must, kinds, optional = set(), {}, set()
-    via_std = {}
     sel = T.Selection()
     if t.rundir is not None:
         if whole:
@@ -796,7 +797,6 @@ def run_case(ctx, i, rng):
     else:
         for lx, (node, vs) in sel.must.items():
             T.closure(node, must, kinds)
-            via_std[node.phys] = vs
         for lx, node in sel.optional.items():
             T.closure(node, optional)
     if 'through_nonstd' in flags:
@@ -809,7 +809,8 @@ def run_case(ctx, i, rng):
             continue
         for p in S0:
             if T.under(p, ln.tphys) and p not in must and (
-                    p not in optional) and (whole is False or not in_allowed(p)):
+                    p not in optional) and (
+                        not whole or not in_allowed(p)):
                 protected.setdefault(p, ln)
     has_out = any(ln.tphys and not in_allowed(ln.tphys) for ln in t.nonstd)
     if has_out:
@@ -879,8 +880,6 @@ def run_case(ctx, i, rng):
     if t.shape == 'numbered' and t.runN_points_here and run_gone:
         tidy.add(runN)
     if t.shape != 'flat' and run_gone:
-        left = set(os.listdir(t.wparent.phys)) if os.path.isdir(
-            t.wparent.phys) else set()
         before = {os.path.basename(p) for p in S0
                   if os.path.dirname(p) == t.wparent.phys}
         rest = before - {t.run, '_cylc-install'} - (
@@ -1046,8 +1045,6 @@ def run_case(ctx, i, rng):
                          left=[rel(x) for x in sorted(must) if x in S1][:8])
                 elif kinds.get(p) == 'std-symlink-target':
                     ctx.count('std_targets_deleted')
-    elif expected_refusal and outcome == 'ok':
-        pass
     if expected_refusal and outcome == expected_refusal:
         ctx.count('refusals_as_expected')
         if removed or changed:
